@@ -202,7 +202,7 @@ type dmgStats struct {
 }
 
 // damageEnumerate builds a repository with the given events, then damages each metadata file in turn.
-func damageEnumerate(goit string, c *Chunk, evs []M, contents map[string][]byte, tz int, rng *rand.Rand, label string, thorough bool, stats *dmgStats, infra *[]string) {
+func damageEnumerate(goit string, c *Chunk, evs []M, contents map[string][]byte, tz int, rng *rand.Rand, label string, thorough bool, stats *dmgStats, infra *[]string, part, parts int) {
 	base, err := os.MkdirTemp(scratchBase(), "vdmg")
 	if err != nil {
 		panic(err)
@@ -290,6 +290,9 @@ func damageEnumerate(goit string, c *Chunk, evs []M, contents map[string][]byte,
 	snap := readTreeFiles(base)
 	ref.Snapshot = snap
 	for mi, m := range muts {
+		if parts > 1 && mi%parts != part {
+			continue
+		}
 		if m.kind != "craft" {
 			m.class = classOf[m.rel]
 			m.class2 = classOf[m.rel2]
